@@ -932,10 +932,10 @@ fn assemble(text: &str) -> Result<Vec<u8>, String>
 	let directives = DirectiveList::generate();
 	let mut ctx = Context::new(&Arm6M, &directives);
 	drop(ctx.assemble(text.as_bytes(), PathBuf::from("t.asm")));
-	if let Err(e) = ctx.close_segment() {return Err(format!("close: {e}"));}
+	if let Err(e) = ctx.close_segment() {return Err(format!("close: {}", crate::errkind::seg_kind(&e)));}
 	if !ctx.finalize()
 	{
-		return Err(ctx.get_errors().iter().map(|e| format!("{e}")).collect::<Vec<_>>().join("; "));
+		return Err(ctx.get_errors().iter().map(|e| format!("{}:{}:{}", e.line, e.col, crate::errkind::diag_kind(&e.value))).collect::<Vec<_>>().join("; "));
 	}
 	let mut out = Vec::new();
 	for (_, data) in ctx.output().iter() {out.extend_from_slice(data);}
